@@ -10,7 +10,10 @@ class Version(SQLObject):
         del values['dateArchived']
         for _col in self.extraCols:
             del values[_col]
-        self.masterClass.get(self.masterID).set(**values)
+        # the master lives where this version lives
+        connection = self.sqlmeta._perConnection and self._connection or None
+        self.masterClass.get(self.masterID,
+                             connection=connection).set(**values)
 
     def nextVersion(self):
         version = self.select(
